@@ -346,6 +346,34 @@ impl<S: ScancodeSet + core::fmt::Debug> Machine for KbM<S> {
     }
 }
 
+/// The composite Keyboard with a real (runtime-selected) layout.
+pub struct KbAnyM<S: ScancodeSet + core::fmt::Debug>(pub Keyboard<DbgAny, S>);
+impl<S: ScancodeSet + core::fmt::Debug> Machine for KbAnyM<S> {
+    fn id(&self) -> String {
+        format!("{:?}", self.0)
+    }
+    fn obs(&self) -> Value {
+        obs_mods(self.0.get_modifiers(), self.0.get_ctrl_handling())
+    }
+    fn apply(&mut self, i: &Input) -> Step {
+        plain(match i {
+            Input::Bit(b) => res_scan(self.0.add_bit(*b)),
+            Input::Clear => {
+                self.0.clear();
+                json!(["none"])
+            }
+            Input::Word(w) => res_scan(self.0.add_word(*w)),
+            Input::Byte(b) => res_scan(self.0.add_byte(*b)),
+            Input::Key(k, s) => res_decoded(self.0.process_keyevent(KeyEvent::new(*k, *s))),
+            Input::Mode(h) => {
+                self.0.set_ctrl_handling(*h);
+                json!(["none"])
+            }
+            _ => unsupported("keyboard(any)", i),
+        })
+    }
+}
+
 /// Construct a machine by component name. No const/static construction anywhere.
 pub fn make(comp: &str) -> Box<dyn Machine> {
     let map = HandleControl::MapLettersToUnicode;
@@ -357,6 +385,19 @@ pub fn make(comp: &str) -> Box<dyn Machine> {
         "eventany" => Box::new(EventAnyM(EventDecoder::new(DbgAny(2, any_layout(2)), map))),
         "kb1" => Box::new(KbM::new(ScancodeSet1::new(), map)),
         "kb2" => Box::new(KbM::new(ScancodeSet2::new(), map)),
+        c if c.starts_with("kbl2:") || c.starts_with("kbl1:") => {
+            // Keyboard with a real layout, by name: kbl2:Uk105Key
+            let name = &c[5..];
+            let idx = LAYOUT_NAMES.iter().position(|x| *x == name).unwrap_or_else(|| {
+                eprintln!("pkv: unknown layout {}", name);
+                std::process::exit(2)
+            }) as u8;
+            if c.starts_with("kbl2:") {
+                Box::new(KbAnyM(Keyboard::new(ScancodeSet2::new(), DbgAny(idx, any_layout(idx)), map)))
+            } else {
+                Box::new(KbAnyM(Keyboard::new(ScancodeSet1::new(), DbgAny(idx, any_layout(idx)), map)))
+            }
+        }
         _ => {
             eprintln!("pkv: unknown component {}", comp);
             std::process::exit(2)
